@@ -67,10 +67,11 @@ Footprint(kind, a) ==
      [] a = 65286 -> {65286, 65285}                                     \* TMA (also loads TIMA in the reload cycle)
      [] a = 65287 -> {65287, 65285}                                     \* TAC (an edge it causes may clock TIMA)
      [] a = 65296 -> {65296, 65318}                                     \* NR10 sweep
-     [] a \in {65298, 65303, 65313, 65306} -> {a, 65318}                \* NRx2 / NR30: envelope, DAC
+     [] a \in {65298, 65303, 65313} -> {a, 65318}                       \* NRx2: envelope, DAC
+     [] a = 65306 -> {a, 65318} \cup Range(65328, 65343)                \* NR30: DAC (a stopped channel frees wave RAM)
      [] a \in {65300, 65305, 65315} -> {a, 65318}                       \* NRx4 trigger
      [] a = 65310 -> {a, 65318} \cup Range(65328, 65343)                \* NR34 trigger (wave RAM)
-     [] a = 65318 -> Range(65296, 65318)                                \* NR52 power
+     [] a = 65318 -> Range(65296, 65318) \cup Range(65328, 65343)       \* NR52 power
      [] a >= 65328 /\ a <= 65343 -> Range(65328, 65343)                 \* wave RAM
      [] a = 65344 -> {65344, 65348, 65345}                              \* LCDC: LY, STAT
      [] a = 65350 -> {65350} \cup Range(65024, 65279)                   \* DMA: OAM
@@ -91,10 +92,12 @@ InFoot(kind, a, b) ==
      [] a = 65286 -> b \in {65286, 65285}
      [] a = 65287 -> b \in {65287, 65285}
      [] a = 65296 -> b \in {65296, 65318}
-     [] a \in {65298, 65303, 65313, 65306} -> b \in {a, 65318}
+     [] a \in {65298, 65303, 65313} -> b \in {a, 65318}
+     \* NR30 is channel 3's DAC: switching it off stops the channel, and a stopped channel gives wave RAM back to the CPU
+     [] a = 65306 -> b \in {a, 65318} \/ In(b, 65328, 65343)
      [] a \in {65300, 65305, 65315} -> b \in {a, 65318}
      [] a = 65310 -> b \in {a, 65318} \/ In(b, 65328, 65343)
-     [] a = 65318 -> In(b, 65296, 65318)
+     [] a = 65318 -> In(b, 65296, 65318) \/ In(b, 65328, 65343)   \* power off also stops channel 3 (wave RAM readable again)
      [] a >= 65328 /\ a <= 65343 -> In(b, 65328, 65343)
      [] a = 65344 -> b \in {65344, 65348, 65345}
      [] a = 65350 -> b = 65350 \/ In(b, 65024, 65279)
